@@ -14,7 +14,9 @@ MANIFEST = dict(
          "length bound, root and group-only paths included, and injectivity (equal path strings imply equal name tuples) across "
          "all pairs of length tuples up to a bound; the path property of the writer's GroupObject/ChannelObject equals the encoding "
          "of its own names for ordered pairs of objects created in one process (no aliasing through shared state); one concrete writer->reader cycle per path class with names taken from "
-         "the solver's models.",
+         "the solver's models; plus 20 concrete near-alias pairs (names that unicode normalisation, compatibility characters, case, "
+         "surrounding white space or zero-width/NUL characters would identify) written as two groups and two channels of one file "
+         "and read eagerly and lazily (concrete witnesses, not a solver verdict: the solver has no model of the unicode tables).",
     note="Trusted: z3, sx engine, SymStr model of str (+, replace of one character, join, iteration, equality). Bound: name length. "
          "The end-to-end write/read cycle is concrete (one witness per explored path class). If the decoder uses a C-level "
          "string facility the engine cannot carry (e.g. re), the check falls back to exhaustive enumeration over the alphabet "
